@@ -183,12 +183,24 @@ def run_case(case):
                     if enc in data:
                         viol.append({"key": "name-leak", "what": "member name %r occurs in the bytes of a header-encrypted archive" % name})
             try:
-                R.parse(data, None)
-                viol.append({"key": "header-decodable-without-key", "what": "reference reader decodes the header of a header-encrypted archive without a key"})
+                # decode=False: only the header is looked at (the members' own AES coder must not mask a readable header)
+                R.parse(data, None, decode=False, strict_tiling=False)
+                viol.append({"key": "header-decodable-without-key", "what": "reference reader decodes the header of a header-encrypted archive (password %r, mode %s) without a key" % (pw, case["header"])})
             except R.RefPasswordRequired:
                 pass
             except Exception as e:
                 viol.append({"key": "header-encryption-odd/%s" % type(e).__name__, "what": "reference reader without key: %s (expected: password required)" % pz.exc_sig(e)})
+            if "7zAES" not in (arc.layout.get("header_coders") or []):
+                viol.append({"key": "header-not-aes-coded", "what": "header encryption requested (%s, password %r) but the header's coders are %r" % (case["header"], pw, arc.layout.get("header_coders"))})
+            # and py7zr itself must not hand out the names without the password
+            try:
+                with py7zr.SevenZipFile(io.BytesIO(data), password=None) as z:
+                    leaked = z.getnames()
+                viol.append({"key": "names-without-password", "what": "header-encrypted archive opened without password lists %r" % leaked[:3]})
+            except py7zr.exceptions.PasswordRequired:
+                pass
+            except Exception as e:
+                viol.append({"key": "no-password-open/%s" % type(e).__name__, "what": "opening a header-encrypted archive without password raised %s instead of PasswordRequired" % pz.exc_sig(e)})
         # ---- (3) two archives from identical input
         a, b = arcs
         if props_ivs and len(props_ivs) == 2 and set(props_ivs[0]) & set(props_ivs[1]):
